@@ -1,5 +1,49 @@
-"""Assumed contracts of engine.io (server and client side) and of the asyncio primitives."""
+"""Assumed contracts of engine.io (server and client side).  Each model notes the assumption it embodies."""
+import z3
+from pyvc import smt
+from pyvc.smt import V, B, I, NONE
+from pyvc.model import SV, Leaf
+from pyvc.vals import S, PySeq, Fixed, Raised, Exc, Unsupported, Fn
+from pyvc.dsl import log_append
 
 
 def install(ext, schema):
-    pass
+    from . import views
+    if ('manager', 'callbacks') in schema.fields:
+        ext.counter_fields[('manager', 'callbacks')] = ('manager', 'ack_next')
+        ext.counter_atom = views.COUNTER
+    if ('client', 'callbacks') in schema.fields:
+        ext.counter_fields[('client', 'callbacks')] = ('client', 'ack_next')
+        ext.counter_atom = views.COUNTER
+    m = ext.obj_methods
+    m[('EioServer', 'generate_id')] = eio_generate_id
+    m[('EioServer', 'send')] = eio_server_send
+    m[('EioServer', 'send_packet')] = eio_server_send_packet
+
+
+class _C:
+    def __init__(self, eng, ctx):
+        self.eng, self.ctx = eng, ctx
+
+
+def eio_generate_id(eng, ctx, args, kwargs):
+    eng.ext.note('engine.io generate_id() returns a non-empty string never returned before (12 random bytes + sequence number)')
+    r = smt.fresh('new_sid', V)
+    iss = ctx.st.get('g', 'issued')
+    ctx.assume(z3.Not(iss.c['.'][r]), r != NONE, smt.truthy(r), smt.kind(r) == smt.K_STR)
+    ctx.st = ctx.st.set('g', 'issued', iss.with_child(('k', r), SV(Leaf('B'), {'': z3.BoolVal(True)})))
+    yield ctx, S(r)
+
+
+def eio_server_send(eng, ctx, args, kwargs):
+    eng.ext.note('engine.io server send(sid, data) queues exactly one frame on that connection, in call order, and does not raise')
+    eio_sid, data = args.items()
+    log_append(_C(eng, ctx), 'g', 'raw', key=eng.to_v(ctx, eio_sid), frame=data)
+    yield ctx, S(NONE)
+
+
+def eio_server_send_packet(eng, ctx, args, kwargs):
+    eng.ext.note('engine.io server send_packet(sid, Packet(MESSAGE, data)) queues exactly one frame on that connection and does not raise')
+    eio_sid, pkt = args.items()
+    log_append(_C(eng, ctx), 'g', 'raw', key=eng.to_v(ctx, eio_sid), frame=pkt)
+    yield ctx, S(NONE)
